@@ -35,6 +35,7 @@ func c09(c *Ctx) {
 	c09R8(c)
 	// a handler that dead-locks against the queued collector stops collection for good (shared rule)
 	c04R7(c)
+	ruleArgSwap(c, "C04.R8", c.P.AllFuncs(), "the whole module (the pod key namespace/name identifies the record and the owner of an address)")
 }
 
 func c09R1(c *Ctx) {
